@@ -1311,7 +1311,7 @@ func c13GenServe(r *Rand) *c13In {
 		vl := tot - (5 + len(nm)) - 1 - 4
 		in.Headers = append(in.Headers, []string{nm, strings.Repeat("h", vl)})
 	}
-	if in.CL >= 0 && (n > 0 || r.Chance(50)) {
+	if in.CL >= 0 && (n > 0 || r.Chance(50)) && !r.Chance(10) { // (sometimes only Request.ContentLength is known)
 		in.Headers = append(in.Headers, []string{"Content-Length", strconv.Itoa(n)})
 	}
 	if n > 0 && r.Chance(70) {
